@@ -3,6 +3,7 @@ CONSTANTS
   Fix = {"tail", "suffix", "epoch"}
   Taints = {}
   GenMode = FALSE
+  MaxSkip = 0
   MaxOps = 3
   MaxPost = 2
   MaxRecs = 4
